@@ -37,12 +37,86 @@ func implC03(line string) string {
 		return parseExprText(astx.UnHex(f[3][1:]))
 	case "asi":
 		return implAsi(f)
+	case "noin":
+		return implNoIn(f)
 	case "num":
 		return implNum(f)
 	case "str":
 		return implStr(f)
 	}
 	return "bad-op"
+}
+
+// implNoIn: the expression inside a for-header, as the real parser built it.
+func implNoIn(f []string) string {
+	prog, err := parser.ParseFile(nil, "", astx.UnHex(f[3][1:]), 0)
+	if err != nil || len(prog.Body) != 1 {
+		return "reject"
+	}
+	switch st := prog.Body[0].(type) {
+	case *ast.ForStatement:
+		if f[1] != "init" {
+			return "reject:for"
+		}
+		if seq, ok := st.Initializer.(*ast.SequenceExpression); ok && len(seq.Sequence) == 1 {
+			return fromAST(seq.Sequence[0]).String()
+		}
+		return "reject:initializer"
+	case *ast.ForInStatement:
+		if f[1] != "var" {
+			return "reject:forin"
+		}
+		if v, ok := st.Into.(*ast.VariableExpression); ok && v.Initializer != nil {
+			return fromAST(v.Initializer).String()
+		}
+		return "reject:into"
+	}
+	return "reject:" + astx.Kind(prog.Body[0])
+}
+
+func addNoIn(c *h.Ctx, e *Ex, form string, key string) {
+	w := &renderer{r: c.Rng}
+	var src string
+	if form == "var" {
+		w.pos(1, false, e)
+		src = "for ( var v = " + w.text(false) + " in z ) ;"
+	} else {
+		w.pos(0, false, e)
+		src = "for ( " + w.text(false) + " ; ; ) ;"
+	}
+	toks, _ := parser.VerifScanAll(src)
+	c.Add("noin "+form+" "+e.String()+" x"+astx.Hex(src)+" "+astx.TokWire(toks), "noin:"+form, key)
+}
+
+// genNoIn: expressions in for-headers (NoIn): relational chains, `in` under every operator, ?: with `in` in each operand,
+// for both header forms (the `var` form is followed by the `in` of the for-in and must leave it alone).
+func genNoIn(c *h.Ctx) {
+	g := &gen{r: c.Rng}
+	a, b, cc, d := &Ex{K: "id", Op: "a"}, &Ex{K: "id", Op: "b"}, &Ex{K: "id", Op: "c"}, &Ex{K: "id", Op: "d"}
+	in := func(x, y *Ex) *Ex { return &Ex{K: "bin", Op: "in", A: []*Ex{x, y}} }
+	bin := func(op string, x, y *Ex) *Ex { return &Ex{K: "bin", Op: op, A: []*Ex{x, y}} }
+	var fixed []*Ex
+	for _, op := range binOps {
+		fixed = append(fixed, bin(op, in(a, b), cc), bin(op, a, in(b, cc)), bin(op, bin(op, a, b), cc), bin(op, a, bin(op, b, cc)))
+	}
+	for _, r1 := range []string{"lt", "gt", "le", "ge", "instanceof", "in"} {
+		for _, r2 := range []string{"lt", "gt", "le", "ge", "instanceof", "in"} {
+			fixed = append(fixed, bin(r2, bin(r1, a, b), cc), bin(r1, a, bin(r2, b, cc)), bin(r2, bin(r1, bin(r2, a, b), cc), d))
+		}
+	}
+	cond := func(x, y, z *Ex) *Ex { return &Ex{K: "cond", A: []*Ex{x, y, z}} }
+	fixed = append(fixed, cond(a, in(b, cc), d), cond(in(a, b), cc, d), cond(a, b, in(cc, d)), cond(a, cond(b, in(cc, d), a), d),
+		&Ex{K: "asg", Op: "assign", A: []*Ex{a, in(b, cc)}}, &Ex{K: "asg", Op: "assign", A: []*Ex{a, cond(b, in(cc, d), a)}},
+		&Ex{K: "call", A: []*Ex{a, in(b, cc)}}, &Ex{K: "idx", A: []*Ex{a, in(b, cc)}}, &Ex{K: "un", Op: "not", A: []*Ex{in(a, b)}},
+		bin("lt", bin("lt", &Ex{K: "num", Op: "1"}, &Ex{K: "num", Op: "2"}), &Ex{K: "num", Op: "3"}))
+	for _, e := range fixed {
+		addNoIn(c, e, "init", "noin:fixed")
+		addNoIn(c, e, "var", "noin:fixed")
+	}
+	for i := 0; i < c.N(4000, 100000); i++ {
+		e := g.expr(1 + c.Rng.Intn(4))
+		addNoIn(c, e, []string{"init", "var"}[c.Rng.Intn(2)], "noin:random")
+	}
 }
 
 func addExpr(c *h.Ctx, e *Ex, mode string, key string) {
@@ -104,4 +178,5 @@ func genC03(c *h.Ctx) {
 	}
 	genLit(c)
 	genAsi(c)
+	genNoIn(c)
 }
